@@ -1,50 +1,29 @@
-"""Which models serve which property, with their exhaustive (E1) configurations and tiers."""
+"""Collects the model descriptions in lib/models/*.py and maps properties to the models serving them."""
+import importlib
+import os
+import sys
 
-ABC = {"a", "b", "c"}
+_here = os.path.join(os.path.dirname(os.path.abspath(__file__)), "models")
+sys.path.insert(0, _here)
 
+# properties whose checks are registered in MANIFEST.json (a model may already serve a property
+# that is not yet claimed because another model it needs is still missing)
+CLAIMED = ["C07"]
 
-def _set(ev, path, val):
-    cur = ev
-    for k in path[:-1]:
-        cur = cur[k]
-    if cur[path[-1]] == val:
-        return None
-    cur[path[-1]] = val
-    return ev
-
-
-MODELS = {}
-PROPS = {}
-
-# ---------------------------------------------------------------------------------------------
-# RoleTransfer  (C07; gate monitor of C06)
-# ---------------------------------------------------------------------------------------------
-_rt = dict(Acct=ABC, MinTempTtl=1, MaxTtl=20, DUs={0, 1, 4}, DTs={0, 1, 2}, Now0=10)
-MODELS["RoleTransfer"] = dict(
-    bin="roletransfer",
-    trace="Trace_RoleTransfer",
-    mc=[
-        dict(name="code", module="MC_RoleTransfer",
-             constants=dict(_rt, Depth=3, FIXED_C07=False, Emit=True),
-             thorough=dict(Depth=4),
-             invariants=["KnownOnly", "Refines"]),
-        dict(name="repaired", module="MC_RoleTransfer",
-             constants=dict(_rt, Depth=4, FIXED_C07=True, Emit=False),
-             thorough=dict(Depth=5),
-             invariants=["NoViolation"]),
-        dict(name="nonvacuous", module="MC_RoleTransfer",
-             constants=dict(_rt, Depth=3, FIXED_C07=False, Emit=False),
-             invariants=["NoViolation"], expect="violation"),
-    ],
-    quick=dict(sample=4000, drive_runs=320, drive_len=40),
-    thorough=dict(sample=None, drive_runs=16000, drive_len=60),
-    need=[("offer", "ok"), ("offer", "fail"), ("cancel", "ok"), ("accept", "ok"), ("accept", "fail"),
-          ("renounce", "ok"), ("renounce", "fail"), ("gated", "ok"), ("gated", "fail")],
-    selftest=[
-        lambda ev: _set(ev, ["obs", "holder"], "c" if ev["obs"]["holder"] != "c" else "b"),
-        lambda ev: _set(ev, ["res"], "ok") if ev["op"]["op"] == "accept" and ev["res"] == "fail" else None,
-        lambda ev: _set(ev, ["res"], "ok") if ev["op"]["op"] == "gated" and ev["res"] == "fail" else None,
-    ],
-)
-PROPS["C07"] = dict(models=["RoleTransfer"],
-                    assumptions=["ledger min_temp_entry_ttl = 1 as the property prescribes"])
+MODELS, PROPS = {}, {}
+for fn in sorted(os.listdir(_here)):
+    if not fn.endswith(".py") or fn in ("common.py",):
+        continue
+    mod = importlib.import_module(fn[:-3])
+    if getattr(mod, "DISABLED", False):
+        continue
+    MODELS[mod.NAME] = mod.MODEL
+    for pid, extra in mod.SERVES.items():
+        P = PROPS.setdefault(pid, dict(models=[], assumptions=[]))
+        P["models"].append(mod.NAME)
+        P["assumptions"] += extra.get("assumptions", [])
+        for k, v in extra.items():
+            if k != "assumptions":
+                P[k] = v
+for pid, P in PROPS.items():
+    P["claimed"] = pid in CLAIMED
